@@ -126,6 +126,18 @@ CHECKS = {
         note="Bound: depth 3 (quick) / 4 (thorough) on 4 base models (plain GD, block-smooth + partition, quadratic class with "
              "class LMI, composite + prox + user LMI). CLARABEL tolerance 2e-5 on values.",
     ),
+    "C14": dict(
+        category="model_checking",
+        technique="exhaustive grid models x heuristics x tolerances x regularisations x back-ends x modes, each case compared "
+                  "with the same model solved without heuristic (differential oracle) + independent certificate / instance",
+        text="For every grid point the solve with a dimension-reduction heuristic must return the dual bound of the original "
+             "problem with a certificate valid for the original (recorded) constraint list, a primal value within the "
+             "requested tolerance of the optimum, an instance that is feasible and is the solver's own final solution, and - "
+             "for the trace heuristic - a Gram trace that did not increase.",
+        note="Grid: 13 models (normalised and not, LMI, partition, composite, small-eigenvalue direction, operators) x "
+             "{trace, logdet1-3} x tol {1e-6..1e-2} x reg {1e-3,1e-2} x {cvxpy, MOSEK stand-in} x {dual, primal}; quick = every "
+             "third grid point. Heuristic re-solves that the solver fails are counted, not judged.",
+    ),
     "C15": dict(
         category="model_checking",
         technique="explicit enumeration of all get_block histories <= 4 (5) for d in {1,2,3} on the real BlockPartition; exact "
